@@ -163,16 +163,12 @@ use {
             once,
             repeat_n,
         },
-        mem::{
-            ManuallyDrop,
-            MaybeUninit,
-        },
+        mem::ManuallyDrop,
         num::NonZero,
         ptr::read,
         sync::{
             Arc,
             Mutex,
-            Once,
         },
         thread::{
             self,
@@ -288,20 +284,6 @@ use {
 #[derive(Clone, Debug, Eq, Hash, Ord, PartialEq, PartialOrd)]
 pub struct AdjacencyMap {
     arcs: BTreeMap<usize, BTreeSet<usize>>,
-}
-
-#[allow(static_mut_refs)]
-fn empty_set() -> &'static BTreeSet<usize> {
-    static mut EMPTY: MaybeUninit<BTreeSet<usize>> = MaybeUninit::uninit();
-    static INIT: Once = Once::new();
-
-    unsafe {
-        INIT.call_once(|| {
-            let _ = EMPTY.write(BTreeSet::new());
-        });
-
-        EMPTY.assume_init_ref()
-    }
 }
 
 impl AddArc for AdjacencyMap {
@@ -422,8 +404,7 @@ impl Complement for AdjacencyMap {
     /// The time complexity is `O(v² log v)`, where `v` is the digraph's
     /// order.
     fn complement(&self) -> Self {
-        let order = self.order();
-        let vertices = (0..order).collect::<BTreeSet<_>>();
+        let vertices = self.vertices().collect::<BTreeSet<_>>();
 
         Self {
             arcs: self
@@ -450,20 +431,18 @@ impl Converse for AdjacencyMap {
     /// The time complexity is `O(v² log v)`, where `v` is the digraph's
     /// order.
     fn converse(&self) -> Self {
-        let order = self.order();
-        let mut vec = vec![BTreeSet::new(); order];
+        let mut arcs = self
+            .vertices()
+            .map(|u| (u, BTreeSet::new()))
+            .collect::<BTreeMap<_, _>>();
 
         for (u, out_neighbors) in &self.arcs {
             for v in out_neighbors {
-                unsafe {
-                    let _ = vec.get_unchecked_mut(*v).insert(*u);
-                };
+                let _ = arcs.entry(*v).or_default().insert(*u);
             }
         }
 
-        Self {
-            arcs: vec.into_iter().enumerate().collect(),
-        }
+        Self { arcs }
     }
 }
 
@@ -863,24 +842,13 @@ impl IsSemicomplete for AdjacencyMap {
             return false;
         }
 
-        let mut out_neighbors = Vec::<&BTreeSet<_>>::with_capacity(order);
-
-        for u in self.vertices() {
-            out_neighbors
-                .push(self.arcs.get(&u).unwrap_or_else(|| empty_set()));
-        }
-
-        let ptr = out_neighbors.as_ptr();
-
-        unsafe {
-            for u in self.vertices() {
-                for v in self.vertices() {
-                    if u != v
-                        && !(*ptr.add(u)).contains(&v)
-                        && !(*ptr.add(v)).contains(&u)
-                    {
-                        return false;
-                    }
+        for (u, out_neighbors_u) in &self.arcs {
+            for (v, out_neighbors_v) in &self.arcs {
+                if u != v
+                    && !out_neighbors_u.contains(v)
+                    && !out_neighbors_v.contains(u)
+                {
+                    return false;
                 }
             }
         }
@@ -912,24 +880,13 @@ impl IsTournament for AdjacencyMap {
             return false;
         }
 
-        let mut out_neighbors = Vec::<&BTreeSet<_>>::with_capacity(order);
-
-        for u in self.vertices() {
-            out_neighbors
-                .push(self.arcs.get(&u).unwrap_or_else(|| empty_set()));
-        }
-
-        let ptr = out_neighbors.as_ptr();
-
-        unsafe {
-            for u in self.vertices() {
-                for v in self.vertices() {
-                    if u != v
-                        && (*ptr.add(u)).contains(&v)
-                            == (*ptr.add(v)).contains(&u)
-                    {
-                        return false;
-                    }
+        for (u, out_neighbors_u) in &self.arcs {
+            for (v, out_neighbors_v) in &self.arcs {
+                if u != v
+                    && out_neighbors_u.contains(v)
+                        == out_neighbors_v.contains(u)
+                {
+                    return false;
                 }
             }
         }
